@@ -347,6 +347,7 @@ func diffCase(id int, seed int64, out *json.Encoder, big bool) {
 	if !big && rng.Intn(8) == 0 {
 		// whole-node decoding ("registered types"), with values that may be nil (trees used as sets)
 		cfg.Marsh = "jsonreg"
+		cfg.NF = "v1"
 		cfg.KT, cfg.VT = "string", []string{"string", "nilstr"}[rng.Intn(2)]
 		cfg.Cmp = false
 	}
